@@ -150,6 +150,13 @@ pub enum Op {
         h: SlotId,
         words: usize,
     },
+    /// C20/C17: C constructors and validators fed hostile text; message buffers between canaries
+    HostileC {
+        what: String,
+        tag: String,
+        data: String,
+        buf_len: usize,
+    },
     // ---- stop controller
     StopNew {
         h: SlotId,
@@ -190,6 +197,11 @@ pub enum Op {
     /// C02/C18: agreement with the byte-level replica
     ChkByte {
         h: SlotId,
+    },
+    /// C02: the same bytes under a different split into tokens of the same vocabulary
+    ChkResplit {
+        h: SlotId,
+        seed: u64,
     },
     /// C03: bounded search for a proved dead end
     ChkDead {
@@ -233,6 +245,7 @@ impl Op {
                 | Op::ChkSeq { .. }
                 | Op::ChkFresh { .. }
                 | Op::ChkByte { .. }
+                | Op::ChkResplit { .. }
                 | Op::ChkDead { .. }
                 | Op::ChkComplete { .. }
                 | Op::ChkMirror { .. }
